@@ -66,6 +66,9 @@ func runStreamJob(job *Job, res *Result) {
 	if logCons {
 		res.Scenario += "/ordinary-output-consumed"
 	}
+	if job.Args["cores"] != "" {
+		res.Scenario += "/producer-and-consumer-" + job.Args["cores"] + "-slots-each/side-task-" + job.Args["sidecores"] + "-slots"
+	}
 	if job.Args["postcores"] != "" {
 		res.Scenario += "/then-a-task-needing-" + job.Args["postcores"] + "-slots"
 	}
@@ -124,6 +127,9 @@ func runStreamJob(job *Job, res *Result) {
 		if hdr {
 			os.WriteFile("hdr0.txt", []byte("HDR\n"), 0644)
 		}
+		if job.Args["sidecores"] != "" {
+			os.WriteFile("side0.txt", []byte("SIDE\n"), 0644)
+		}
 		before = statAll(".")
 		errLog.Reset()
 	}
@@ -167,6 +173,19 @@ func runStreamJob(job *Job, res *Result) {
 			cons.In("in").From(sp1.OutPort("out"))
 		} else {
 			cons.In("in").From(prod.Out("out"))
+		}
+		if pc, _ := strconv.Atoi(job.Args["cores"]); pc > 0 {
+			// multi-slot producer and consumer: each gets ALL its slots or none while it waits
+			prod.CoresPerTask = pc
+			cons.CoresPerTask = pc
+		}
+		if sc, _ := strconv.Atoi(job.Args["sidecores"]); sc > 0 {
+			// an unrelated multi-slot task competing for the slots at the same time
+			ssrc := components.NewFileSource(wf, "ssrc", "side0.txt")
+			side := wf.NewProc("side", "cat {i:in} > {o:out}")
+			side.SetOut("out", "{i:in}.side")
+			side.CoresPerTask = sc
+			side.In("in").From(ssrc.Out())
 		}
 		if pc, _ := strconv.Atoi(job.Args["postcores"]); pc > 0 {
 			// a process behind the consumer whose tasks need pc slots: they get them only if the streaming
